@@ -101,6 +101,16 @@ def gen_index_cases(ctx, maxlen):
     return out
 
 
+def gen_presets(ctx, nattr, maxpre):
+    """Histories over EVERY derived attribute (SliceAll.tla): sets of at most maxpre attribute numbers x slice kind."""
+    cfg = "SPECIFICATION Spec\nCONSTANTS\n NAttr = %d\n MaxPre = %d\nINVARIANT TypeOK\nINVARIANT Independent\nINVARIANT Emit\nCHECK_DEADLOCK FALSE\n" % (nattr, maxpre)
+    r = ctx.tlc_ok("SliceAll", cfg, what="histories Read^<=%d ; Slice over all %d introspected Grid attributes" % (maxpre, nattr), timeout=1500)
+    out = sorted({(tuple(sorted(p[1])), p[2]) for p in r.prints if isinstance(p, tuple) and p and p[0] == "P"})
+    if not out:
+        raise Machinery("SliceAll printed no histories")
+    return out
+
+
 def gen_behaviours(ctx, maxpre, maxacc, simulate=None, seed=0):
     kw = {}
     if simulate:
@@ -139,7 +149,7 @@ def cat_src(e):
     return {"t": "cat", "eid": catalog.eid(e)}
 
 
-def build_cases(ctx, rng, thorough, idx_cases, behaviours, sims):
+def build_cases(ctx, rng, thorough, idx_cases, behaviours, sims, presets=(), attrs=()):
     cases = []
 
     def add(cid, src, prov, op, **kw):
@@ -334,6 +344,39 @@ def build_cases(ctx, rng, thorough, idx_cases, behaviours, sims):
                 for mode in ("gap", "at"):
                     add("fine:xsec:%s:%s:%d" % (tag, mode, j), src, provs[j % 2], {"t": "lat", "kind": "face", "pick": j, "mode": mode}, threads=X.THREADS, **({"data": data_spec(j)} if j % 2 else {}))
                     add("fine:faces_at:%s:%s:%d" % (tag, mode, j), src, provs[(j + 1) % 2], {"t": "lat", "kind": "face", "pick": j, "mode": mode, "faces_only": True}, threads=X.THREADS)
+    # N. every lazily derived public attribute of Grid (enumerated by introspection): read a TLC-chosen set on the
+    #    source, slice, then read ALL of them on the result and on the same subset of a pristine source.
+    #    Meshes with faces across the antimeridian, holes (partial cuts) and mixed face sizes.
+    all_src = [cat_src(catalog.entries(name=n, rot=r, cut=c)[0]) for n, r, c in [("cuboctahedron", 0, 3), ("truncated_octahedron", 5, 2), ("rhombicuboctahedron", 0, 0), ("cube", 0, 0), ("tetrakis_cube", 13, 5)]]
+    plist = list(presets)
+    if thorough and len(plist) > 1500:
+        singles = [p for p in plist if len(p[0]) <= 1]
+        pairs = [p for p in plist if len(p[0]) > 1]
+        plist = singles + pairs[:: len(pairs) // 1200 + 1]
+    for j, (pset, kind) in enumerate(plist):
+        names = [attrs[a - 1] for a in pset]
+        for si in ([j % len(all_src)] if not thorough else [j % len(all_src), (j + 2) % len(all_src)]):
+            add(
+                "all:%d:%s:%s:%d" % (j, "+".join(names) or "-", kind, si),
+                all_src[si],
+                provs[(j + si) % 2],
+                {"t": "idx", "kind": kind, "idx": [], "shape": "proper", "form": "list"},
+                pre_attrs=names,
+                read_all=True,
+                bounds=True,
+            )
+    # O. a UxDataset holding face-, node- and edge-centred variables together, sliced as a whole
+    for name, rot, cut in [("cube", 0, 0), ("cuboctahedron", 0, 3), ("truncated_octahedron", 5, 0)]:
+        e = catalog.entries(name=name, rot=rot, cut=cut)[0]
+        n = {"face": len(e["faces"]), "node": len(e["nodes"]), "edge": e["n_edge"]}
+        for kind in ("face", "node", "edge"):
+            sets = [rng.sample(range(n[kind]), 3), list(range(n[kind]))[::-1], [rng.randrange(n[kind])]] + [rng.sample(range(n[kind]), 2) for _ in range(4 if thorough else 0)]
+            for j, idx in enumerate(sets):
+                k += 1
+                specs = [{"kind": "face", "rank": 1 + k % 3, "axis": k % 2}, {"kind": "node", "rank": 1 + (k + 1) % 3, "axis": (k + 1) % 3}, {"kind": "edge", "rank": 1 + (k + 2) % 3, "axis": 0}, {"kind": kind, "rank": 1, "axis": 0}]
+                add("dset:%s:%s:%d" % (catalog.eid(e), kind, j), cat_src(e), ["derived", "supplied", "mpas"][k % 3], {"t": "idx", "kind": kind, "idx": idx, "form": FORMS[j % 2]}, dataset=specs)
+            k += 1
+            add("dset:%s:%s:slice" % (catalog.eid(e), kind), cat_src(e), provs[k % 2], {"t": "idx", "kind": kind, "idx": [], "slice": [-3, None, None]}, dataset=[{"kind": "face", "rank": 2, "axis": 1}, {"kind": "node", "rank": 1, "axis": 0}, {"kind": "edge", "rank": 3, "axis": 2}])
     # M. slice objects on the grid dimension of a UxDataArray (negative bounds and steps included)
     for name in ("cube", "cuboctahedron"):
         e = catalog.entries(name=name, rot=0, cut=0)[0]
@@ -390,7 +433,10 @@ def run(ctx):
     if thorough and len(behaviours) > 9000:
         behaviours = behaviours[:: (len(behaviours) // 9000 + 1)]
     sims = gen_behaviours(ctx, 4, 6, simulate=400 if thorough else 60, seed=ctx.seed)
-    cases = build_cases(ctx, rng, thorough, idx_cases, behaviours, sims)
+    attrs = X.grid_attributes()
+    ctx.note("grid_attributes_introspected", attrs)
+    presets = gen_presets(ctx, len(attrs), 2 if thorough else 1)
+    cases = build_cases(ctx, rng, thorough, idx_cases, behaviours, sims, presets, attrs)
     if not thorough:
         # quick tier: thin the large families by a fixed stride (deterministic)
         cap = {"box": 300, "circle": 150, "knn": 100, "xsec": 150, "faces_at": 150, "hist": 450, "fine": 160}
@@ -398,7 +444,7 @@ def run(ctx):
         for c in cases:
             fam.setdefault(c["id"].split(":")[0], []).append(c)
         cases = []
-        for f, cs in sorted(fam.items(), key=lambda kv: kv[0] != "bnd"):
+        for f, cs in sorted(fam.items(), key=lambda kv: kv[0] not in ("bnd", "all")):
             if f in cap and len(cs) > cap[f]:
                 step = len(cs) / float(cap[f])
                 cs = [cs[int(k * step)] for k in range(cap[f])]
